@@ -208,7 +208,7 @@ static void explore_unit(const Cfg &cfg, const std::string &unit, UnitStats &S){
 
 int main(int argc, char **argv){
     vf::Args A(argc, argv);
-    g_prop = A.get("--prop", "C01"); g_tier = A.get("--tier", "quick"); g_depth = (int) A.geti("--depth", g_tier == "quick" ? 3 : 4);
+    g_prop = A.get("--prop", "C01"); fresh_setcoef_allowed = (g_prop == "C06" || g_prop == "C11"); g_tier = A.get("--tier", "quick"); g_depth = (int) A.geti("--depth", g_tier == "quick" ? 3 : 4);
     g_watch = A.getd("--watchdog", g_prop == "C08" ? 5.0 : 15.0);
     double dl = A.getd("--deadline", 0); if (dl > 0) vf::g_deadline = vf::now() + dl;
     if (A.has("--replay")){
